@@ -122,48 +122,72 @@ func execC12Encode(in c12Input) *vstat.Outcome {
 	data := in.bytes()
 	srv := compress.NewService()
 	srv.SetLevels(map[string]int{"gzip": in.Level, "br": in.Level})
-	guard(out, "Gzip", func() {
-		gz, err := srv.Gzip(data)
-		if err != nil {
-			out.Violate("C12", "gzip", "Gzip(level %d, %d bytes %s) failed: %v", in.Level, len(data), in.Shape, err)
-			return
+	// Several bodies are encoded first and verified afterwards: a stream handed
+	// out by an encoder must stay valid while later encode calls run.
+	bodies := [][]byte{data}
+	if len(data) > 0 {
+		rev := make([]byte, len(data))
+		for i := range data {
+			rev[len(data)-1-i] = data[i]
 		}
-		back, err := refGunzip(gz)
-		if err != nil {
-			out.Violate("C12", "gzip", "standard gzip reader rejects the stream of Gzip(level %d, %d bytes %s): %v", in.Level, len(data), in.Shape, err)
-		} else if !bytes.Equal(back, data) {
-			out.Violate("C12", "gzip", "standard gzip reader restores %d bytes, input had %d (level %d, %s)", len(back), len(data), in.Level, in.Shape)
-		}
-		own, err := srv.Gunzip(gz)
-		if err != nil || !bytes.Equal(own, data) {
-			out.Violate("C12", "gzip", "Gunzip(Gzip(x)) != x (level %d, %d bytes %s, err %v)", in.Level, len(data), in.Shape, err)
-		}
-		viaDecompress, err := srv.Decompress("gzip", gz)
-		if err != nil || !bytes.Equal(viaDecompress, data) {
-			out.Violate("C12", "dispatch", "Decompress(gzip) does not restore the input (err %v)", err)
-		}
-	})
-	guard(out, "Brotli", func() {
-		br, err := srv.Brotli(data)
-		if err != nil {
-			out.Violate("C12", "br", "Brotli(level %d, %d bytes %s) failed: %v", in.Level, len(data), in.Shape, err)
-			return
-		}
-		back, err := refBrotliDecode(br)
-		if err != nil {
-			out.Violate("C12", "br", "reference brotli reader rejects the stream of Brotli(level %d, %d bytes %s): %v", in.Level, len(data), in.Shape, err)
-		} else if !bytes.Equal(back, data) {
-			out.Violate("C12", "br", "reference brotli reader restores %d bytes, input had %d (level %d, %s)", len(back), len(data), in.Level, in.Shape)
-		}
-		own, err := srv.BrotliDecode(br)
-		if err != nil || !bytes.Equal(own, data) {
-			out.Violate("C12", "br", "BrotliDecode(Brotli(x)) != x (level %d, %d bytes %s, err %v, got %d bytes)", in.Level, len(data), in.Shape, err, len(own))
-		}
-		viaDecompress, err := srv.Decompress("br", br)
-		if err != nil || !bytes.Equal(viaDecompress, data) {
-			out.Violate("C12", "dispatch", "Decompress(br) does not restore the input (err %v)", err)
+		bodies = append(bodies, rev, data[:len(data)/2+1])
+	} else {
+		bodies = append(bodies, []byte("a"), []byte("lorem ipsum"))
+	}
+	gzs := make([][]byte, len(bodies))
+	brs := make([][]byte, len(bodies))
+	guard(out, "Gzip/Brotli", func() {
+		for i, b := range bodies {
+			var err error
+			if gzs[i], err = srv.Gzip(b); err != nil {
+				out.Violate("C12", "gzip", "Gzip(level %d, %d bytes %s) failed: %v", in.Level, len(b), in.Shape, err)
+				return
+			}
+			if brs[i], err = srv.Brotli(b); err != nil {
+				out.Violate("C12", "br", "Brotli(level %d, %d bytes %s) failed: %v", in.Level, len(b), in.Shape, err)
+				return
+			}
 		}
 	})
+	if len(out.Violations) > 0 {
+		return out
+	}
+	for i, data := range bodies {
+		gz, br := gzs[i], brs[i]
+		which := fmt.Sprintf("stream %d of %d", i+1, len(bodies))
+		guard(out, "Gunzip", func() {
+			back, err := refGunzip(gz)
+			if err != nil {
+				out.Violate("C12", "gzip", "standard gzip reader rejects %s of Gzip(level %d, %d bytes %s): %v", which, in.Level, len(data), in.Shape, err)
+			} else if !bytes.Equal(back, data) {
+				out.Violate("C12", "gzip", "standard gzip reader restores %d bytes from %s, input had %d (level %d, %s)", len(back), which, len(data), in.Level, in.Shape)
+			}
+			own, err := srv.Gunzip(gz)
+			if err != nil || !bytes.Equal(own, data) {
+				out.Violate("C12", "gzip", "Gunzip(Gzip(x)) != x (%s, level %d, %d bytes %s, err %v)", which, in.Level, len(data), in.Shape, err)
+			}
+			viaDecompress, err := srv.Decompress("gzip", gz)
+			if err != nil || !bytes.Equal(viaDecompress, data) {
+				out.Violate("C12", "dispatch", "Decompress(gzip) does not restore the input (err %v)", err)
+			}
+		})
+		guard(out, "BrotliDecode", func() {
+			back, err := refBrotliDecode(br)
+			if err != nil {
+				out.Violate("C12", "br", "reference brotli reader rejects %s of Brotli(level %d, %d bytes %s): %v", which, in.Level, len(data), in.Shape, err)
+			} else if !bytes.Equal(back, data) {
+				out.Violate("C12", "br", "reference brotli reader restores %d bytes from %s, input had %d (level %d, %s)", len(back), which, len(data), in.Level, in.Shape)
+			}
+			own, err := srv.BrotliDecode(br)
+			if err != nil || !bytes.Equal(own, data) {
+				out.Violate("C12", "br", "BrotliDecode(Brotli(x)) != x (%s, level %d, %d bytes %s, err %v, got %d bytes)", which, in.Level, len(data), in.Shape, err, len(own))
+			}
+			viaDecompress, err := srv.Decompress("br", br)
+			if err != nil || !bytes.Equal(viaDecompress, data) {
+				out.Violate("C12", "dispatch", "Decompress(br) does not restore the input (err %v)", err)
+			}
+		})
+	}
 	out.NonTrivial = in.Size >= 65 || in.Level < 1 || in.Level > 9
 	out.Class("shape_" + in.Shape)
 	if in.Level < 0 || in.Level > 11 {
